@@ -9,6 +9,7 @@ import (
 	"strconv"
 	"strings"
 	"sync"
+	"time"
 
 	"verif/clih"
 	"verif/engine/enum"
@@ -265,7 +266,12 @@ func Eval(c Case) (res Result) {
 		bad("after the crash the directory is partly applied in all mode")
 	}
 	// --- the same command again ---
-	w.ClearLocks()
+	if strings.HasPrefix(c.Point, "lock.") {
+		// the lock file of the killed process is what is under test: it stays, and expires (1ms).
+		time.Sleep(20 * time.Millisecond)
+	} else {
+		w.ClearLocks()
+	}
 	r2 := apply(w, c.Mode, c.Format, nil)
 	if r2.Exit != 0 {
 		bad("re-running the command after the crash fails: %s", r2.String())
@@ -361,7 +367,7 @@ func formats(tier string) []string {
 
 func Run(r *report.Run) {
 	defer clih.Cleanup()
-	r.Rule = "real CLI binary (built with -tags verif) on a real SQLite file: tx-mode {file, all, none} x directory shapes (1-5 files x 1-4 statements, per-file txmode directives (header detached by an empty line, by a line of blanks, or in a file saved with CR LF line endings), checkpoint files incl. two checkpoints with files after the latest; plain shapes also as golang-migrate / goose / flyway / dbmate directories opened with ?format=; statements INSERT their own id into a journal table) x every crash point reached by the crash-free run of that shape (stmt.before/after, rev.before/after, commit.before/after, commitall.before/after - discovered by a counting run, so complete by construction) ; the process is killed (exit 137, no deferred code) and the same command is run again; states read by our own SQLite connection; non-trivial = case whose crash point was reached; distinct = (mode, format, shape, point)"
+	r.Rule = "real CLI binary (built with -tags verif) on a real SQLite file: tx-mode {file, all, none} x directory shapes (1-5 files x 1-4 statements, per-file txmode directives (header detached by an empty line, by a line of blanks, or in a file saved with CR LF line endings), checkpoint files incl. two checkpoints with files after the latest; plain shapes also as golang-migrate / goose / flyway / dbmate directories opened with ?format=; statements INSERT their own id into a journal table) x every crash point reached by the crash-free run of that shape (stmt.before/after, rev.before/after, commit.before/after, commitall.before/after, lock.created/written - discovered by a counting run, so complete by construction) ; the process is killed (exit 137, no deferred code) and the same command is run again; states read by our own SQLite connection; non-trivial = case whose crash point was reached; distinct = (mode, format, shape, point)"
 	r.Assumptions = []string{
 		"the re-run happens after the advisory lock of the killed process expired (--lock-timeout 1ms and stale lock files removed)",
 		"SQLite's own journal recovery is trusted; the first statement is CREATE TABLE IF NOT EXISTS so that re-executing the in-flight statement in none mode is possible at all",
